@@ -82,12 +82,13 @@ def hdlc_lemmas(Obligation):
     obl.append(Obligation("lemma.fcs_fold_frame#base", [hi <= lo, j >= hi], L1(hi), use_axioms=False, kind="lemma"))
     obl.append(Obligation("lemma.fcs_fold_frame#step", [hi > lo, j >= hi, L1(hi - 1)], L1(hi), use_axioms=False, kind="lemma"))
     ax_fold_frame = z3.ForAll([a, j, v, lo, hi], z3.Implies(j >= hi, FOLD(z3.Store(a, j, v), lo, hi) == FOLD(a, lo, hi)), patterns=[FOLD(z3.Store(a, j, v), lo, hi)])
-    def L2(p_):
-        return z3.And(z3.Implies(FO(a, p_, j) < j, FO(S, p_, j + 1) == FO(a, p_, j)),
-                      z3.Implies(FO(a, p_, j) >= j, FO(S, p_, j + 1) == z3.If(odd(v), j, j + 1)))
-    obl.append(Obligation("lemma.first_odd_append#base", [p >= j, p <= j + 1], L2(p), use_axioms=False, kind="lemma"))
-    obl.append(Obligation("lemma.first_odd_append#step", [p < j, L2(p + 1)], L2(p), use_axioms=False, kind="lemma"))
-    ax_fo_append = z3.ForAll([a, j, v, p, m], z3.Implies(z3.And(m == j + 1, p <= j + 1),
+    # first_odd under an append at index j (two independently inductive halves: z3 is unstable on their conjunction)
+    L2a = lambda p_: z3.Implies(FO(a, p_, j) < j, FO(S, p_, j + 1) == FO(a, p_, j))
+    L2b = lambda p_: z3.Implies(FO(a, p_, j) >= j, FO(S, p_, j + 1) == z3.If(odd(v), j, j + 1))
+    for nm, L2 in (("lt", L2a), ("ge", L2b)):
+        obl.append(Obligation(f"lemma.first_odd_append_{nm}#base", [p == j], L2(p), use_axioms=False, kind="lemma"))
+        obl.append(Obligation(f"lemma.first_odd_append_{nm}#step", [p < j, L2(p + 1)], L2(p), use_axioms=False, kind="lemma"))
+    ax_fo_append = z3.ForAll([a, j, v, p, m], z3.Implies(z3.And(m == j + 1, p <= j),
         z3.And(z3.Implies(FO(a, p, j) < j, FO(z3.Store(a, j, v), p, m) == FO(a, p, j)),
                z3.Implies(FO(a, p, j) >= j, FO(z3.Store(a, j, v), p, m) == z3.If(odd(v), j, j + 1)))), patterns=[FO(z3.Store(a, j, v), p, m)])
     bnd = lambda f, p_: z3.And(f(a, p_, n) >= p_, f(a, p_, n) <= n)
